@@ -25,6 +25,8 @@ Definition bind {A B} (o : outcome A) (f : A -> outcome B) : outcome B :=
 
 Definition is_ok {A} (o : outcome A) : bool := match o with Ok _ => true | _ => false end.
 
+Definition nthz (l : list Z) (i : nat) : Z := nth i l 0%Z.
+
 Section Arr.
 Context {A : Type}.
 
@@ -51,4 +53,6 @@ Qed.
 
 Lemma upd_same_length_nil i v : upd (@nil A) i v = [].
 Proof. destruct i; reflexivity. Qed.
+Lemma nth_repeat_lt (x d : A) n i : i < n -> nth i (repeat x n) d = x.
+Proof. revert i; induction n as [|n IH]; intros [|i] H; simpl; try lia; auto. apply IH; lia. Qed.
 End Arr.
